@@ -1,5 +1,6 @@
 import Tyme.Driver.Util
 import Tyme.Driver.P01
+import Tyme.Driver.P09
 import Tyme.Driver.P18
 import Tyme.Driver.P04
 import Tyme.Driver.P07
@@ -21,6 +22,7 @@ def execOpAll (op : String) (a : List Int) : String :=
     <|> (P07.execOp op a)
     <|> (P04.execOp op a)
     <|> (P18.execOp op a)
+    <|> (P09.execOp op a)
     -- DISPATCH-EXEC   <|> (Pxx.execOp op a)
   match r with
   | none => "bad-op"
@@ -37,6 +39,7 @@ def specOpAll (op : String) (a : List Int) : String :=
     <|> (P07.specOp op a)
     <|> (P04.specOp op a)
     <|> (P18.specOp op a)
+    <|> (P09.specOp op a)
     -- DISPATCH-SPEC   <|> (Pxx.specOp op a)
   match r with
   | none => "n/a"
@@ -52,6 +55,7 @@ def runEnumAll (name : String) (args : List String) (out : IO.FS.Stream) : Optio
   <|> (P07.runEnum name args out)
   <|> (P04.runEnum name args out)
   <|> (P18.runEnum name args out)
+  <|> (P09.runEnum name args out)
   -- DISPATCH-ENUM   <|> (Pxx.runEnum name args out)
 
 def lineWith (f : String → List Int → String) (line : String) : String :=
